@@ -12,7 +12,12 @@
       Load k that finds something return the same value, forever;
    4. per-KEY mutual exclusion of the keyed mutexes: a ghost list of holders
       computed from the history, an invariant relating it to the state of the
-      key's mutex, for runs in which a thread only unlocks keys it holds.
+      key's mutex, for runs in which a thread only unlocks keys it holds;
+   5. the same at the level of keys for TryLockKey / TryRLockKey / LockKey:
+      they fail (wait) while the key is held incompatibly and succeed when the
+      key is free, whatever other keys are held or awaited (for programs whose
+      mutexes are fresh: calls on different keys carry different values), and
+      disciplined runs never panic.
 
    Part 0 (flat configurations: no Range, so no nested frames; the history
    ghosts) is independent of the insert-only restriction and is reused by
@@ -1047,8 +1052,8 @@ Definition MInv (c : config) : Prop := exists i, c_insts c = [i] /\
   Forall (fun h : hold => is_Some (kmut (i_st i) h.1.2)) (holders c) /\
   forall m, mutex_ok (default UFree (c_um c !! m)) (base.filter (on_km (kmut (i_st i)) m) (holders c)).
 
-(* a thread only unlocks what it holds *)
-Definition disciplined (c : config) : Prop := forall t f, top_frame c t = Some f ->
+(* thread t, about to take a step, only unlocks what it holds *)
+Definition disciplined (c : config) (t : nat) : Prop := forall f, top_frame c t = Some f ->
   match f_pc f with
   | KM_Unlock | KRW_Unlock => holds_excl c t (key_of (f_call f))
   | KRW_RUnlock => holds_shared c t (key_of (f_call f))
@@ -1058,7 +1063,7 @@ Definition disciplined (c : config) : Prop := forall t f, top_frame c t = Some f
 Fixpoint disc_from (c : config) (sched : list (nat * Z)) : Prop :=
   match sched with
   | [] => True
-  | (t, ch) :: sched' => disciplined c /\ disc_from (default c (step c t ch)) sched'
+  | (t, ch) :: sched' => disciplined c t /\ disc_from (default c (step c t ch)) sched'
   end.
 
 Lemma sf_ret_shape t i f ch i' r : io_call (f_call f) -> pc_ok (f_call f) (f_pc f) = true ->
@@ -1158,7 +1163,7 @@ Proof.
   rewrite Hm0, (kmut_ext _ _ _ _ F1 F2 He Hm0). reflexivity.
 Qed.
 
-Theorem MInv_step c t ch c' : IOInv c -> MInv c -> disciplined c -> step c t ch = Some c' -> MInv c'.
+Theorem MInv_step c t ch c' : IOInv c -> MInv c -> disciplined c t -> step c t ch = Some c' -> MInv c'.
 Proof.
   intros HIO HM Hd Hstep. destruct (IOInv_step _ _ _ _ HIO Hstep) as [HIO' Hext].
   destruct HIO as [HI HS HP HH (i & Hi & Ha & Hf & Hr)].
@@ -1190,7 +1195,7 @@ Proof.
     exists i. split; [exact Hi|]. rewrite Hh. cbn [c_um]. split.
     + apply hold_step_Forall; [exact Hk|]. intros b. cbn. eauto.
     + eapply mutex_post; eauto.
-      specialize (Hd t f Tt). rewrite Hcall in Hd. cbn [key_of] in Hd. exact Hd.
+      specialize (Hd f Tt). rewrite Hcall in Hd. cbn [key_of] in Hd. exact Hd.
   - (* ... panics *)
     destruct HM as (i0 & Hi0' & Hk & Hm). assert (i0 = i) by congruence. subst i0.
     exists i. split; [exact Hi|].
@@ -1274,35 +1279,27 @@ Proof.
 Qed.
 
 (* ---- a decidable form of the discipline, for examples ---- *)
-Definition disciplinedb (c : config) : bool :=
-  forallb (fun tth : nat * thread =>
-    match t_stack tth.2 with
-    | f :: _ =>
-        match f_pc f with
-        | KM_Unlock | KRW_Unlock => bool_decide ((tth.1, key_of (f_call f), true) ∈ holders c)
-        | KRW_RUnlock => bool_decide ((tth.1, key_of (f_call f), false) ∈ holders c)
-        | _ => true
-        end
-    | [] => true
-    end) (imap pair (c_threads c)).
+Definition disciplinedb (c : config) (t : nat) : bool :=
+  match top_frame c t with
+  | Some f =>
+      match f_pc f with
+      | KM_Unlock | KRW_Unlock => bool_decide ((t, key_of (f_call f), true) ∈ holders c)
+      | KRW_RUnlock => bool_decide ((t, key_of (f_call f), false) ∈ holders c)
+      | _ => true
+      end
+  | None => true
+  end.
 
-Lemma nth_error_list_lookup {X} (l : list X) n : nth_error l n = l !! n.
-Proof. revert n. induction l as [|x l IH]; intros [|n]; cbn; auto. Qed.
-
-Lemma disciplinedb_ok c : disciplinedb c = true -> disciplined c.
+Lemma disciplinedb_ok c t : disciplinedb c t = true -> disciplined c t.
 Proof.
-  unfold disciplinedb. rewrite forallb_forall. intros H t f Tt. unfold top_frame in Tt.
-  destruct (nth_error (c_threads c) t) as [th|] eqn:Hth; [|discriminate].
-  assert (Hin : In (t, th) (imap pair (c_threads c))).
-  { apply elem_of_list_In, elem_of_lookup_imap. exists t, th. split; [reflexivity|]. rewrite <- nth_error_list_lookup. exact Hth. }
-  specialize (H _ Hin). cbn in H. destruct (t_stack th) as [|f0 st]; [discriminate|]. cbn in Tt. injection Tt as ->.
+  unfold disciplinedb. intros H f Tt. rewrite Tt in H.
   unfold holds_excl, holds_shared. destruct (f_pc f); try exact I; apply bool_decide_eq_true in H; exact H.
 Qed.
 
 Fixpoint disc_fromb (c : config) (sched : list (nat * Z)) : bool :=
   match sched with
   | [] => true
-  | (t, ch) :: sched' => disciplinedb c && disc_fromb (default c (step c t ch)) sched'
+  | (t, ch) :: sched' => disciplinedb c t && disc_fromb (default c (step c t ch)) sched'
   end.
 Lemma disc_fromb_ok c sched : disc_fromb c sched = true -> disc_from c sched.
 Proof.
@@ -1329,3 +1326,499 @@ Example insert_only_example :
    holders c = [] /\ map thread_label (c_threads c) = [None; None] /\ map_to_list (c_um c) = [(1001%Z, UFree)] /\
    length (completed (c_hist c)) = 4 /\ c_panicked c = false).
 Proof. vm_compute. repeat split. Qed.
+
+(* ================================================================== *)
+(* 5. TryLockKey / TryRLockKey at the level of keys                   *)
+(* ================================================================== *)
+Lemma hold_step_false hs t c : hold_step hs (t, c, RBool false) = hs.
+Proof.
+  unfold hold_step. cbn [fst snd].
+  assert (acquires c (RBool false) = None) as -> by (destruct c as [| |? ? ? []| | |]; reflexivity).
+  assert (releases c (RBool false) = None) as -> by (destruct c as [| |? ? ? []| | |]; reflexivity).
+  reflexivity.
+Qed.
+
+(* the step of thread t standing at a Try* label, seen from outside: the call completes with RBool b *)
+Lemma try_step c t ch c' f : IOInv c -> top_frame c t = Some f -> is_try (f_pc f) = true ->
+  step c t ch = Some c' ->
+  exists um' b, step_post (c_um c) f = Some (Ok (um', Return (RBool b))) /\ c_um c' = um' /\ c_insts c' = c_insts c /\
+    completed (c_hist c') = completed (c_hist c) ++ [(t, f_call f, RBool b)].
+Proof.
+  intros HIO Tt Htry Hstep. destruct HIO as [HI HS HP HH _].
+  assert (HS0 : Shaped flat_call c) by (eapply Shaped_weaken; [apply io_flat|exact HS]).
+  pose proof (step_fstep _ _ _ _ HI HS0 Hstep) as Hfs.
+  assert (Hpl : is_post_label (f_pc f) = true) by (destruct (f_pc f); try discriminate; reflexivity).
+  destruct Hfs as [th f0 um' r Hth Hst Hpl0 Hsp|th f0 k Hth Hst Hpl0 Hsp|th f0 i0 i' f' Hth Hst Hpl0 Hi1 Hsf|th f0 i0 i' r Hth Hst Hpl0 Hi1 Hsf];
+    (assert (f0 = f) by (unfold top_frame in Tt; rewrite Hth, Hst in Tt; cbn in Tt; congruence)); subst f0; try congruence.
+  - assert (P0 : t_fresh th = false -> pend_of (c_hist c) !! t = Some (f_call f)) by (eapply HistOK_pend; eauto).
+    assert (exists b, r = RBool b) as [b ->].
+    { unfold step_post in Hsp. destruct (f_pc f); try discriminate Htry; repeat case_match; simplify_eq; eauto. }
+    exists um', b. split; [exact Hsp|]. split; [reflexivity|]. split; [reflexivity|].
+    cbn [c_hist]. unfold inv_ev. fold (maybe_inv (t_fresh th) t (f_call f)). apply completed_ret, P0.
+  - exfalso. unfold step_post in Hsp. destruct (f_pc f); try discriminate Htry; repeat case_match; simplify_eq.
+Qed.
+
+(* the frame of a keyed-mutex call that stands at its mutex step holds the key's mutex *)
+Lemma post_frame_mutex c i t f : IOInv c -> c_insts c = [i] -> top_frame c t = Some f -> is_post_label (f_pc f) = true ->
+  kmut (i_st i) (key_of (f_call f)) = Some (f_los f).1.
+Proof.
+  intros HIO Hi Tt Hpl. destruct (io_inst _ HIO) as (i0 & Hi0 & _ & Hf & _). assert (i0 = i) by congruence. subst i0.
+  destruct (Hf t f Tt) as [[_ HF2] _]. apply kmut_kval.
+  - eapply (Inv_kfun c 0); [apply (io_inv _ HIO)|]. rewrite Hi. reflexivity.
+  - apply HF2. unfold los_known. destruct (f_pc f); try discriminate; reflexivity.
+Qed.
+
+(* TryLockKey(k) fails while k is held, in any mode, by anybody *)
+Theorem trylock_fails_while_held progs sched t ch c' f t2 b2 :
+  io_progs progs -> disc_from (init_config 1 progs) sched ->
+  let c := run_schedule (init_config 1 progs) sched in
+  top_frame c t = Some f -> (f_pc f = KM_TryLock \/ f_pc f = KRW_TryLock) ->
+  (t2, key_of (f_call f), b2) ∈ holders c ->
+  step c t ch = Some c' ->
+  completed (c_hist c') = completed (c_hist c) ++ [(t, f_call f, RBool false)] /\ c_um c' = c_um c /\ holders c' = holders c.
+Proof.
+  intros Hp Hd c Tt Hpc Hh Hstep.
+  pose proof (IOInv_reachable progs sched Hp) as HIO. fold c in HIO.
+  destruct (MInv_reachable progs sched Hp Hd) as (i & Hi & Hk & Hm). fold c in Hi, Hk, Hm.
+  assert (Htry : is_try (f_pc f) = true) by (destruct Hpc as [-> | ->]; reflexivity).
+  destruct (try_step c t ch c' f HIO Tt Htry Hstep) as (um' & b & Hsp & Hum & _ & Hc).
+  assert (Hpl : is_post_label (f_pc f) = true) by (destruct Hpc as [-> | ->]; reflexivity).
+  pose proof (post_frame_mutex c i t f HIO Hi Tt Hpl) as Hkm.
+  destruct (try_lock_result (c_um c) f Hpc) as (um2 & Hsp2 & _ & Hsame).
+  rewrite Hsp in Hsp2. injection Hsp2 as -> ->.
+  assert (Hnf : free_for_writer (mstate_of (c_um c) f) = false).
+  { specialize (Hm (f_los f).1).
+    assert (Hin : (t2, key_of (f_call f), b2) ∈ base.filter (on_km (kmut (i_st i)) (f_los f).1) (holders c))
+      by (apply elem_of_list_filter; split; [exact Hkm|exact Hh]).
+    unfold mstate_of, mutex_of. destruct (default UFree (c_um c !! (f_los f).1)) as [| |[|n]]; cbn in Hm |- *; try reflexivity.
+    - rewrite Hm in Hin. inversion Hin.
+    - destruct Hm as [Hm _]. apply length_zero_nil in Hm. rewrite Hm in Hin. inversion Hin. }
+  rewrite Hnf in Hc. split; [exact Hc|]. split; [rewrite Hum; apply Hsame, Hnf|].
+  unfold holders. rewrite Hc, holders_of_snoc. apply hold_step_false.
+Qed.
+
+(* TryRLockKey(k) fails while k is held exclusively *)
+Theorem tryrlock_fails_while_write_held progs sched t ch c' f t2 :
+  io_progs progs -> disc_from (init_config 1 progs) sched ->
+  let c := run_schedule (init_config 1 progs) sched in
+  top_frame c t = Some f -> f_pc f = KRW_TryRLock ->
+  holds_excl c t2 (key_of (f_call f)) ->
+  step c t ch = Some c' ->
+  completed (c_hist c') = completed (c_hist c) ++ [(t, f_call f, RBool false)] /\ c_um c' = c_um c /\ holders c' = holders c.
+Proof.
+  intros Hp Hd c Tt Hpc Hh Hstep.
+  pose proof (IOInv_reachable progs sched Hp) as HIO. fold c in HIO.
+  pose proof (MInv_reachable progs sched Hp Hd) as HM. fold c in HM.
+  assert (Htry : is_try (f_pc f) = true) by (rewrite Hpc; reflexivity).
+  destruct (try_step c t ch c' f HIO Tt Htry Hstep) as (um' & b & Hsp & Hum & _ & Hc).
+  assert (Hpl : is_post_label (f_pc f) = true) by (rewrite Hpc; reflexivity).
+  destruct (MInv_excl c t2 _ HM Hh) as [_ (i & m & Hi & Hkm & Hlocked)].
+  pose proof (post_frame_mutex c i t f HIO Hi Tt Hpl) as Hkm'. assert (m = (f_los f).1) by congruence. subst m.
+  destruct (try_rlock_result (c_um c) f Hpc) as (um2 & Hsp2 & Hsame & _).
+  rewrite Hsp in Hsp2. injection Hsp2 as -> ->.
+  assert (Hnf : free_for_reader (mstate_of (c_um c) f) = false) by (unfold mstate_of, mutex_of; rewrite Hlocked; reflexivity).
+  rewrite Hnf in Hc. split; [exact Hc|]. split; [rewrite Hum; apply Hsame, Hnf|].
+  unfold holders. rewrite Hc, holders_of_snoc. apply hold_step_false.
+Qed.
+
+(* TryLockKey(k) succeeds, and then holds k, when nobody holds a key with k's mutex *)
+Theorem trylock_succeeds_when_free progs sched t ch c' f i :
+  io_progs progs -> disc_from (init_config 1 progs) sched ->
+  let c := run_schedule (init_config 1 progs) sched in
+  top_frame c t = Some f -> (f_pc f = KM_TryLock \/ f_pc f = KRW_TryLock) -> c_insts c = [i] ->
+  (forall h, h ∈ holders c -> kmut (i_st i) h.1.2 <> kmut (i_st i) (key_of (f_call f))) ->
+  step c t ch = Some c' ->
+  completed (c_hist c') = completed (c_hist c) ++ [(t, f_call f, RBool true)] /\ holds_excl c' t (key_of (f_call f)).
+Proof.
+  intros Hp Hd c Tt Hpc Hi Hfree Hstep.
+  pose proof (IOInv_reachable progs sched Hp) as HIO. fold c in HIO.
+  destruct (MInv_reachable progs sched Hp Hd) as (i0 & Hi0 & Hk & Hm). fold c in Hi0, Hk, Hm.
+  assert (i0 = i) by congruence. subst i0.
+  assert (Htry : is_try (f_pc f) = true) by (destruct Hpc as [-> | ->]; reflexivity).
+  destruct (try_step c t ch c' f HIO Tt Htry Hstep) as (um' & b & Hsp & Hum & _ & Hc).
+  assert (Hpl : is_post_label (f_pc f) = true) by (destruct Hpc as [-> | ->]; reflexivity).
+  pose proof (post_frame_mutex c i t f HIO Hi Tt Hpl) as Hkm.
+  destruct (try_lock_result (c_um c) f Hpc) as (um2 & Hsp2 & _ & _).
+  rewrite Hsp in Hsp2. injection Hsp2 as -> ->.
+  assert (Hnil : base.filter (on_km (kmut (i_st i)) (f_los f).1) (holders c) = []).
+  { destruct (base.filter _ _) as [|h l] eqn:E; [reflexivity|]. exfalso.
+    assert (Hin : h ∈ base.filter (on_km (kmut (i_st i)) (f_los f).1) (holders c)) by (rewrite E; left).
+    apply elem_of_list_filter in Hin as [H1 H2]. apply (Hfree h H2). unfold on_km in H1. congruence. }
+  assert (Hf : free_for_writer (mstate_of (c_um c) f) = true).
+  { specialize (Hm (f_los f).1). rewrite Hnil in Hm. unfold mstate_of, mutex_of.
+    destruct (default UFree (c_um c !! (f_los f).1)) as [| |[|n]]; cbn in Hm |- *; try reflexivity.
+    - destruct Hm as (? & ? & ?). discriminate.
+    - destruct Hm. discriminate. }
+  rewrite Hf in Hc. split; [exact Hc|].
+  unfold holds_excl, holders. rewrite Hc, holders_of_snoc. unfold hold_step. cbn [fst snd].
+  assert (Hfo := fo_post _ (inv_frames c (io_inv _ HIO) t f Tt) Hpl).
+  destruct (f_call f) as [| |j k v p| | |] eqn:Hcall; try contradiction.
+  pose proof (pc_ok_post_label _ _ _ _ _ ltac:(rewrite <- Hcall; apply (io_pc _ HIO t f Tt)) Hpl) as Hpost.
+  assert (acquires (CLoadOrStore j k v p) (RBool true) = Some (k, true)) as ->.
+  { destruct Hpc as [E|E]; rewrite E in Hpost; destruct p; cbn in Hpost; try discriminate; reflexivity. }
+  cbn [key_of]. apply elem_of_app. right. left.
+Qed.
+
+(* ---- where associations come from ---- *)
+Lemma new_reach t i f ch i' o :
+  io_call (f_call f) -> pc_ok (f_call f) (f_pc f) = true -> (in_cs f = true -> WFL (i_st i) f) ->
+  step_frame t i f ch = Some (Ok (i', o)) ->
+  forall k e, reach_any (i_st i') k e ->
+    reach_any (i_st i) k e \/ (exists j v p, f_call f = CLoadOrStore j k v p /\ ents (i_st i') !! e = Some (PVal v)).
+Proof.
+  intros Hio Hpc Hcs H. unfold step_frame in H.
+  destruct (f_call f) as [j k|?|j k v p| | |] eqn:Hcall; try contradiction; cbn in Hio; subst j;
+  destruct (f_pc f) eqn:Hl; try discriminate Hpc; try discriminate H; try (destruct p; discriminate Hpc);
+    cbn [key_of val_of] in *.
+  all: try (assert (Hin : in_cs f = true) by (unfold in_cs, cs_class; rewrite Hl; reflexivity);
+            destruct (Hcs Hin) as [_ Hw]; unfold cs_class in Hw; rewrite Hl, ?Hcall in Hw; cbn [key_of] in Hw).
+  all: unfold expunge_done, tlos_done, bind, new_entry, dirty_insert in H; unfold after_miss, dirty_next, los_return in H;
+    rewrite ?Hcall in H; cbn in H.
+  all: repeat case_match; simplify_eq; cbn [i_st with_st]; try (intros; left; assumption).
+  all: cbn [fst snd i_st with_st]; intros k0 e0 [Hr|Hr]; cbn in Hr.
+  all: try (left; left; exact Hr).
+  all: try discriminate Hr.
+  all: try (rewrite lookup_empty in Hr; discriminate Hr).
+  all: try (left; right; unfold dirty_lookup; match goal with |- context [dirty (i_st ?ii)] => destruct (dirty (i_st ii)) end; cbn in Hr; [exact Hr|rewrite lookup_empty in Hr; discriminate Hr]).
+  all: try match goal with Hd : dirty (i_st _) = Some ?g |- _ =>
+         match type of Hr with context [<[?kk := ?ee]> g] =>
+           destruct (decide (k0 = kk)) as [->|Nk];
+           [rewrite lookup_insert in Hr; injection Hr as <-
+           |rewrite lookup_insert_ne in Hr by congruence; left; right; unfold dirty_lookup; rewrite Hd; exact Hr]
+         end end.
+  - (* Unexpunge_cas: the entry put into dirty is the one in read.m *)
+    destruct Hw as [_ Hk]. left. left. congruence.
+  - right. eexists _, _, _. split; [reflexivity|]. cbn. apply lookup_insert.
+  - destruct Hw as [(L1 & _) _]. left. left. congruence.
+  - right. eexists _, _, _. split; [reflexivity|]. cbn. apply lookup_insert.
+  - destruct Hw as (vis & _ & _ & Hcur & (L1 & _)). left. left. congruence.
+  - destruct Hw as (vis & _ & _ & Hcur & (L1 & _)). left. left. congruence.
+  - destruct Hw as (vis & _ & _ & Hcur & (L1 & _)). left. left. congruence.
+  - destruct Hw as (vis & _ & _ & Hcur & (L1 & _)). left. left. congruence.
+Qed.
+
+Definition src (G : Z -> Z -> Prop) (s : mstate) : Prop :=
+  forall k e, reach_any s k e -> exists m, ents s !! e = Some (PVal m) /\ G k m.
+Definition callG (G : Z -> Z -> Prop) (c : call) : Prop :=
+  match c with CLoadOrStore _ k v _ => G k v | _ => True end.
+
+(* every association was made by a LoadOrStore of the programs: key and value are those of a call *)
+Theorem src_reachable G progs sched i : io_progs progs -> Forall (Forall (callG G)) progs ->
+  c_insts (run_schedule (init_config 1 progs) sched) = [i] -> src G (i_st i).
+Proof.
+  intros Hp HG.
+  enough (H : let c := run_schedule (init_config 1 progs) sched in
+              IOInv c /\ Shaped (callG G) c /\ forall i, c_insts c = [i] -> src G (i_st i)) by (apply H).
+  apply run_schedule_ind.
+  - split; [apply IOInv_init, Hp|]. split; [apply Shaped_init, HG|]. intros i0 [= <-] k e [H|H]; cbn in H; [rewrite lookup_empty in H|]; discriminate.
+  - clear i sched. intros c t ch c' (HIO & HSG & Hsrc) Hstep.
+    destruct (IOInv_step _ _ _ _ HIO Hstep) as [HIO' Hext].
+    pose proof (io_inv _ HIO) as HI. pose proof (io_shape _ HIO) as HS.
+    assert (HS0 : Shaped flat_call c) by (eapply Shaped_weaken; [apply io_flat|exact HS]).
+    pose proof (step_fstep _ _ _ _ HI HS0 Hstep) as Hfs.
+    split; [exact HIO'|]. split; [exact (Shaped_fstep _ _ _ _ _ HI HSG Hfs)|].
+    destruct (io_inst _ HIO) as (i & Hi & _). specialize (Hsrc i Hi).
+    assert (Hi0 : nth_error (c_insts c) 0 = Some i) by (rewrite Hi; reflexivity).
+    assert (Hmap : forall th f i' o, nth_error (c_threads c) t = Some th -> t_stack th = [f] ->
+              step_frame t i f ch = Some (Ok (i', o)) -> ext (i_st i) (i_st i') -> src G (i_st i')).
+    { intros th f i' o Hth Hst Hsf (_ & He & _) k e Hr.
+      assert (Tt : top_frame c t = Some f) by (unfold top_frame; rewrite Hth, Hst; reflexivity).
+      assert (Hio : io_call (f_call f)) by (destruct (HS t th Hth) as [_ Hs]; rewrite Hst in Hs; exact Hs).
+      assert (Hj : call_inst (f_call f) = 0) by (destruct (f_call f); cbn in Hio; try contradiction; auto).
+      destruct (new_reach t i f ch i' o Hio (io_pc _ HIO t f Tt)) with (k := k) (e := e) as [H|(j & v & p & Hcall & H)]; auto.
+      - intros Hcs. apply (Inv_WFL c 0 i t f HI Hi0 Tt Hj Hcs).
+      - destruct (Hsrc k e H) as (m & Hm & HGm). eauto.
+      - exists v. split; [exact H|]. destruct (HSG t th Hth) as [_ Hs]. rewrite Hst, Hcall in Hs. exact Hs. }
+    destruct Hfs as [th f um' r Hth Hst Hpl Hsp|th f k Hth Hst Hpl Hsp|th f i0 i' f' Hth Hst Hpl Hi1 Hsf|th f i0 i' r Hth Hst Hpl Hi1 Hsf];
+      intros i2 Hi2; cbn in Hi2.
+    + assert (i2 = i) by congruence. subst. exact Hsrc.
+    + assert (i2 = i) by congruence. subst. exact Hsrc.
+    + assert (i0 = i) by congruence. subst i0. rewrite Hi in Hi2. cbn in Hi2. injection Hi2 as <-.
+      eapply Hmap; eauto. apply Hext; [exact Hi|cbn; rewrite Hi; reflexivity].
+    + assert (i0 = i) by congruence. subst i0. rewrite Hi in Hi2. cbn in Hi2. injection Hi2 as <-.
+      eapply Hmap; eauto. apply Hext; [exact Hi|cbn; rewrite Hi; reflexivity].
+Qed.
+
+(* TryRLockKey(k) succeeds, and then holds k shared, when nobody holds exclusively a key with k's mutex *)
+Theorem tryrlock_succeeds_when_no_writer progs sched t ch c' f i :
+  io_progs progs -> disc_from (init_config 1 progs) sched ->
+  let c := run_schedule (init_config 1 progs) sched in
+  top_frame c t = Some f -> f_pc f = KRW_TryRLock -> c_insts c = [i] ->
+  (forall h, h ∈ holders c -> h.2 = true -> kmut (i_st i) h.1.2 <> kmut (i_st i) (key_of (f_call f))) ->
+  step c t ch = Some c' ->
+  completed (c_hist c') = completed (c_hist c) ++ [(t, f_call f, RBool true)] /\ holds_shared c' t (key_of (f_call f)).
+Proof.
+  intros Hp Hd c Tt Hpc Hi Hfree Hstep.
+  pose proof (IOInv_reachable progs sched Hp) as HIO. fold c in HIO.
+  destruct (MInv_reachable progs sched Hp Hd) as (i0 & Hi0 & Hk & Hm). fold c in Hi0, Hk, Hm.
+  assert (i0 = i) by congruence. subst i0.
+  assert (Htry : is_try (f_pc f) = true) by (rewrite Hpc; reflexivity).
+  destruct (try_step c t ch c' f HIO Tt Htry Hstep) as (um' & b & Hsp & Hum & _ & Hc).
+  assert (Hpl : is_post_label (f_pc f) = true) by (rewrite Hpc; reflexivity).
+  pose proof (post_frame_mutex c i t f HIO Hi Tt Hpl) as Hkm.
+  destruct (try_rlock_result (c_um c) f Hpc) as (um2 & Hsp2 & _ & _).
+  rewrite Hsp in Hsp2. injection Hsp2 as -> ->.
+  assert (Hf : free_for_reader (mstate_of (c_um c) f) = true).
+  { specialize (Hm (f_los f).1). unfold mstate_of, mutex_of.
+    destruct (default UFree (c_um c !! (f_los f).1)) as [| |n]; cbn in Hm |- *; try reflexivity.
+    destruct Hm as (t0 & k0 & Hm). exfalso.
+    assert (Hin : (t0, k0, true) ∈ base.filter (on_km (kmut (i_st i)) (f_los f).1) (holders c)) by (rewrite Hm; left).
+    apply elem_of_list_filter in Hin as [H1 H2]. apply (Hfree _ H2 eq_refl). unfold on_km in H1. cbn in H1 |- *. congruence. }
+  rewrite Hf in Hc. split; [exact Hc|].
+  unfold holds_shared, holders. rewrite Hc, holders_of_snoc. unfold hold_step. cbn [fst snd].
+  assert (Hfo := fo_post _ (inv_frames c (io_inv _ HIO) t f Tt) Hpl).
+  destruct (f_call f) as [| |j k v p| | |] eqn:Hcall; try contradiction.
+  pose proof (pc_ok_post_label _ _ _ _ _ ltac:(rewrite <- Hcall; apply (io_pc _ HIO t f Tt)) Hpl) as Hpost.
+  assert (acquires (CLoadOrStore j k v p) (RBool true) = Some (k, false)) as ->.
+  { rewrite Hpc in Hpost; destruct p; cbn in Hpost; try discriminate; reflexivity. }
+  cbn [key_of]. apply elem_of_app. right. left.
+Qed.
+
+(* ---- fresh mutexes: distinct keys get distinct mutexes ---- *)
+(* In the code every LoadOrStore passes a newly allocated mutex; in the model the value is a parameter of
+   the call, and "fresh" means that calls on different keys carry different values. *)
+Definition fresh_values (progs : list (list call)) : Prop :=
+  forall c1 c2, In c1 (concat progs) -> In c2 (concat progs) ->
+    match c1, c2 with
+    | CLoadOrStore _ k1 v1 _, CLoadOrStore _ k2 v2 _ => v1 = v2 -> k1 = k2
+    | _, _ => True
+    end.
+
+Lemma kmut_injective progs sched i k1 k2 m : io_progs progs -> fresh_values progs ->
+  c_insts (run_schedule (init_config 1 progs) sched) = [i] ->
+  kmut (i_st i) k1 = Some m -> kmut (i_st i) k2 = Some m -> k1 = k2.
+Proof.
+  intros Hp Hfr Hi H1 H2.
+  set (G := fun (k m : Z) => exists j p, In (CLoadOrStore j k m p) (concat progs)).
+  assert (HG : Forall (Forall (callG G)) progs).
+  { apply Forall_forall. intros prog Hprog. apply Forall_forall. intros c Hc.
+    destruct c as [| |j k v p| | |]; cbn; try exact I. exists j, p. apply in_concat. eauto. }
+  pose proof (src_reachable G progs sched i Hp HG Hi) as Hsrc.
+  assert (Hkf : kfun (i_st i)). { eapply (Inv_kfun _ 0); [apply (io_inv _ (IOInv_reachable progs sched Hp))|]. rewrite Hi. reflexivity. }
+  apply kmut_kval in H1 as (e1 & R1 & E1); [|exact Hkf]. apply kmut_kval in H2 as (e2 & R2 & E2); [|exact Hkf].
+  destruct (Hsrc _ _ R1) as (m1 & E1' & (j1 & p1 & G1)). destruct (Hsrc _ _ R2) as (m2 & E2' & (j2 & p2 & G2)).
+  assert (m1 = m) by congruence. assert (m2 = m) by congruence. subst.
+  apply (Hfr _ _ G1 G2). reflexivity.
+Qed.
+
+(* TryLockKey(k) succeeds when nobody holds k *)
+Theorem trylock_succeeds_when_key_free progs sched t ch c' f :
+  io_progs progs -> fresh_values progs -> disc_from (init_config 1 progs) sched ->
+  let c := run_schedule (init_config 1 progs) sched in
+  top_frame c t = Some f -> (f_pc f = KM_TryLock \/ f_pc f = KRW_TryLock) ->
+  (forall t2 b, (t2, key_of (f_call f), b) ∉ holders c) ->
+  step c t ch = Some c' ->
+  completed (c_hist c') = completed (c_hist c) ++ [(t, f_call f, RBool true)] /\ holds_excl c' t (key_of (f_call f)).
+Proof.
+  intros Hp Hfr Hd c Tt Hpc Hfree Hstep.
+  destruct (MInv_reachable progs sched Hp Hd) as (i & Hi & Hk & _). fold c in Hi, Hk.
+  eapply (trylock_succeeds_when_free progs sched t ch c' f i); eauto.
+  intros [[t2 k2] b2] Hh E. cbn in E.
+  rewrite Forall_forall in Hk. destruct (Hk _ (proj1 (elem_of_list_In _ _) Hh)) as [m Hm]. cbn in Hm.
+  assert (k2 = key_of (f_call f)) by (eapply (kmut_injective progs sched i); eauto; congruence).
+  subst k2. exact (Hfree t2 b2 Hh).
+Qed.
+
+(* TryRLockKey(k) succeeds when nobody holds k exclusively *)
+Theorem tryrlock_succeeds_when_key_not_write_held progs sched t ch c' f :
+  io_progs progs -> fresh_values progs -> disc_from (init_config 1 progs) sched ->
+  let c := run_schedule (init_config 1 progs) sched in
+  top_frame c t = Some f -> f_pc f = KRW_TryRLock ->
+  (forall t2, ~ holds_excl c t2 (key_of (f_call f))) ->
+  step c t ch = Some c' ->
+  completed (c_hist c') = completed (c_hist c) ++ [(t, f_call f, RBool true)] /\ holds_shared c' t (key_of (f_call f)).
+Proof.
+  intros Hp Hfr Hd c Tt Hpc Hfree Hstep.
+  destruct (MInv_reachable progs sched Hp Hd) as (i & Hi & Hk & _). fold c in Hi, Hk.
+  eapply (tryrlock_succeeds_when_no_writer progs sched t ch c' f i); eauto.
+  intros [[t2 k2] b2] Hh Hb E. cbn in E, Hb. subst b2.
+  rewrite Forall_forall in Hk. destruct (Hk _ (proj1 (elem_of_list_In _ _) Hh)) as [m Hm]. cbn in Hm.
+  assert (k2 = key_of (f_call f)) by (eapply (kmut_injective progs sched i); eauto; congruence).
+  subst k2. exact (Hfree t2 Hh).
+Qed.
+
+(* ---- disciplined runs never panic (no unlock of an unlocked mutex) ---- *)
+Lemma step_no_panic c t ch c' : IOInv c -> MInv c -> disciplined c t -> step c t ch = Some c' -> c_panicked c' = false.
+Proof.
+  intros HIO HM Hd Hstep.
+  pose proof (io_inv _ HIO) as HI. pose proof (io_shape _ HIO) as HS.
+  assert (HS0 : Shaped flat_call c) by (eapply Shaped_weaken; [apply io_flat|exact HS]).
+  pose proof (step_fstep _ _ _ _ HI HS0 Hstep) as Hfs.
+  destruct Hfs as [th f um' r Hth Hst Hpl Hsp|th f k Hth Hst Hpl Hsp|th f i0 i' f' Hth Hst Hpl Hi1 Hsf|th f i0 i' r Hth Hst Hpl Hi1 Hsf];
+    try reflexivity.
+  exfalso.
+  assert (Tt : top_frame c t = Some f) by (unfold top_frame; rewrite Hth, Hst; reflexivity).
+  destruct HM as (i & Hi & Hk & Hm).
+  pose proof (post_frame_mutex c i t f HIO Hi Tt Hpl) as Hkm. specialize (Hm (f_los f).1). specialize (Hd f Tt).
+  unfold step_post in Hsp.
+  destruct (f_pc f); try discriminate Hpl; unfold holds_excl, holds_shared in Hd;
+    try (assert (Hin : (t, key_of (f_call f), true) ∈ base.filter (on_km (kmut (i_st i)) (f_los f).1) (holders c))
+           by (apply elem_of_list_filter; split; [exact Hkm|exact Hd]));
+    try (assert (Hin : (t, key_of (f_call f), false) ∈ base.filter (on_km (kmut (i_st i)) (f_los f).1) (holders c))
+           by (apply elem_of_list_filter; split; [exact Hkm|exact Hd]));
+    destruct (default UFree (c_um c !! (f_los f).1)) as [| |[|n]]; try discriminate Hsp; cbn in Hm.
+  all: try (rewrite Hm in Hin; inversion Hin; fail).
+  all: try (destruct Hm as [Hm Hall]; try (apply length_zero_nil in Hm; rewrite Hm in Hin; inversion Hin; fail);
+            rewrite Forall_forall in Hall; specialize (Hall _ (proj1 (elem_of_list_In _ _) Hin)); discriminate).
+  all: destruct Hm as (t0 & k0 & Hm); rewrite Hm in Hin; apply elem_of_list_singleton in Hin; discriminate.
+Qed.
+
+Theorem disciplined_no_panic progs sched : io_progs progs -> disc_from (init_config 1 progs) sched ->
+  c_panicked (run_schedule (init_config 1 progs) sched) = false.
+Proof.
+  intros Hp.
+  enough (H : forall c, IOInv c -> MInv c -> c_panicked c = false -> disc_from c sched -> c_panicked (run_schedule c sched) = false)
+    by (apply H; [apply IOInv_init, Hp|apply MInv_init|reflexivity]).
+  induction sched as [|[t ch] sched IH]; intros c HIO HM Hnp Hd; cbn; [exact Hnp|].
+  destruct Hd as [Hd1 Hd2]. destruct (step c t ch) as [c'|] eqn:E; cbn in *; [|apply IH; assumption].
+  apply IH; [apply (IOInv_step _ _ _ _ HIO E)|eapply MInv_step; eauto|eapply step_no_panic; eauto|exact Hd2].
+Qed.
+
+(* ---- LockKey / RLockKey at the level of keys ---- *)
+(* the step at a mutex label is the mutex step: enabled iff step_post is, and it completes the call *)
+Lemma post_step c t ch f : IOInv c -> c_panicked c = false -> top_frame c t = Some f -> is_post_label (f_pc f) = true ->
+  match step_post (c_um c) f with
+  | None => step c t ch = None
+  | Some (Panic _) => exists c', step c t ch = Some c' /\ c_panicked c' = true
+  | Some (Ok (um', o)) => exists c' r, step c t ch = Some c' /\ o = Return r /\ c_um c' = um' /\ c_insts c' = c_insts c /\
+       completed (c_hist c') = completed (c_hist c) ++ [(t, f_call f, r)]
+  end.
+Proof.
+  intros HIO Hnp Tt Hpl. pose proof (io_inv _ HIO) as HI. pose proof (io_shape _ HIO) as HS. pose proof (io_hist _ HIO) as HH.
+  unfold top_frame in Tt. destruct (nth_error (c_threads c) t) as [th|] eqn:Hth; [|discriminate].
+  destruct (HS t th Hth) as [_ Hs]. destruct (t_stack th) as [|f0 [|]] eqn:Hst; try discriminate; try contradiction.
+  cbn in Tt. injection Tt as ->.
+  assert (Tt : top_frame c t = Some f) by (unfold top_frame; rewrite Hth, Hst; reflexivity).
+  assert (P0 : t_fresh th = false -> pend_of (c_hist c) !! t = Some (f_call f)) by (eapply HistOK_pend; eauto).
+  rewrite step_unfold, Hnp, Hth, Hst, Hpl.
+  destruct (step_post (c_um c) f) as [[[um' o]|k]|] eqn:Hsp; [| |reflexivity].
+  - destruct (step_post_return _ _ _ _ Hsp) as [r ->]. unfold fin, do_return.
+    assert (Hfo := fo_post _ (inv_frames c HI t f Tt) Hpl).
+    destruct (f_call f) as [| |j k v p| | |] eqn:Hcall; try contradiction.
+    eexists _, r. split; [reflexivity|]. split; [reflexivity|]. split; [reflexivity|]. split; [reflexivity|].
+    cbn [c_hist]. fold (maybe_inv (t_fresh th) t (CLoadOrStore j k v p)). apply completed_ret, P0.
+  - unfold fin. eexists. split; reflexivity.
+Qed.
+
+Lemma holders_snoc c c' x : completed (c_hist c') = completed (c_hist c) ++ [x] -> holders c' = hold_step (holders c) x.
+Proof. intros H. unfold holders. rewrite H. apply holders_of_snoc. Qed.
+
+(* LockKey(k) waits while k is held, in any mode, by anybody *)
+Theorem lock_waits_while_held progs sched t ch f t2 b2 :
+  io_progs progs -> disc_from (init_config 1 progs) sched ->
+  let c := run_schedule (init_config 1 progs) sched in
+  top_frame c t = Some f -> (f_pc f = KM_Lock \/ f_pc f = KRW_Lock) ->
+  (t2, key_of (f_call f), b2) ∈ holders c -> step c t ch = None.
+Proof.
+  intros Hp Hd c Tt Hpc Hh.
+  pose proof (IOInv_reachable progs sched Hp) as HIO. fold c in HIO.
+  destruct (MInv_reachable progs sched Hp Hd) as (i & Hi & Hk & Hm). fold c in Hi, Hk, Hm.
+  assert (Hpl : is_post_label (f_pc f) = true) by (destruct Hpc as [-> | ->]; reflexivity).
+  pose proof (post_step c t ch f HIO (disciplined_no_panic progs sched Hp Hd) Tt Hpl) as Hps.
+  pose proof (post_frame_mutex c i t f HIO Hi Tt Hpl) as Hkm.
+  assert (Hex : is_excl_lock (f_pc f) = true) by (destruct Hpc as [-> | ->]; reflexivity).
+  destruct (lock_enabled_iff_free (c_um c) f Hex) as [Hen _].
+  destruct (step_post (c_um c) f) as [r|] eqn:Hsp; [|exact Hps]. exfalso.
+  assert (Hf : free_for_writer (mstate_of (c_um c) f) = true) by (apply Hen; discriminate).
+  specialize (Hm (f_los f).1).
+  assert (Hin : (t2, key_of (f_call f), b2) ∈ base.filter (on_km (kmut (i_st i)) (f_los f).1) (holders c))
+    by (apply elem_of_list_filter; split; [exact Hkm|exact Hh]).
+  unfold mstate_of, mutex_of in Hf. destruct (default UFree (c_um c !! (f_los f).1)) as [| |[|n]]; cbn in Hm, Hf; try discriminate.
+  - rewrite Hm in Hin. inversion Hin.
+  - destruct Hm as [Hm _]. apply length_zero_nil in Hm. rewrite Hm in Hin. inversion Hin.
+Qed.
+
+(* LockKey(k) is enabled, completes and then holds k, when nobody holds k - whatever other keys are held or awaited *)
+Theorem lock_succeeds_when_key_free progs sched t ch f :
+  io_progs progs -> fresh_values progs -> disc_from (init_config 1 progs) sched ->
+  let c := run_schedule (init_config 1 progs) sched in
+  top_frame c t = Some f -> (f_pc f = KM_Lock \/ f_pc f = KRW_Lock) ->
+  (forall t2 b, (t2, key_of (f_call f), b) ∉ holders c) ->
+  exists c', step c t ch = Some c' /\ completed (c_hist c') = completed (c_hist c) ++ [(t, f_call f, RUnit)] /\
+             holds_excl c' t (key_of (f_call f)).
+Proof.
+  intros Hp Hfr Hd c Tt Hpc Hfree.
+  pose proof (IOInv_reachable progs sched Hp) as HIO. fold c in HIO.
+  destruct (MInv_reachable progs sched Hp Hd) as (i & Hi & Hk & Hm). fold c in Hi, Hk, Hm.
+  assert (Hpl : is_post_label (f_pc f) = true) by (destruct Hpc as [-> | ->]; reflexivity).
+  pose proof (post_step c t ch f HIO (disciplined_no_panic progs sched Hp Hd) Tt Hpl) as Hps.
+  pose proof (post_frame_mutex c i t f HIO Hi Tt Hpl) as Hkm.
+  assert (Hex : is_excl_lock (f_pc f) = true) by (destruct Hpc as [-> | ->]; reflexivity).
+  destruct (lock_enabled_iff_free (c_um c) f Hex) as [Hen Hres].
+  assert (Hnil : base.filter (on_km (kmut (i_st i)) (f_los f).1) (holders c) = []).
+  { destruct (base.filter _ _) as [|[[t2 k2] b2] l] eqn:E; [reflexivity|]. exfalso.
+    assert (Hin : (t2, k2, b2) ∈ base.filter (on_km (kmut (i_st i)) (f_los f).1) (holders c)) by (rewrite E; left).
+    apply elem_of_list_filter in Hin as [H1 H2]. unfold on_km in H1. cbn in H1.
+    assert (k2 = key_of (f_call f)) by (eapply (kmut_injective progs sched i); eauto). subst k2. exact (Hfree t2 b2 H2). }
+  assert (Hf : free_for_writer (mstate_of (c_um c) f) = true).
+  { specialize (Hm (f_los f).1). rewrite Hnil in Hm. unfold mstate_of, mutex_of.
+    destruct (default UFree (c_um c !! (f_los f).1)) as [| |[|n]]; cbn in Hm |- *; try reflexivity.
+    - destruct Hm as (? & ? & ?). discriminate.
+    - destruct Hm. discriminate. }
+  apply Hen in Hf. destruct (step_post (c_um c) f) as [r|] eqn:Hsp; [|congruence].
+  rewrite (Hres r eq_refl) in Hps. destruct Hps as (c' & r' & Hstep & [= <-] & _ & _ & Hc).
+  exists c'. split; [exact Hstep|]. split; [exact Hc|].
+  unfold holds_excl. rewrite (holders_snoc _ _ _ Hc). unfold hold_step. cbn [fst snd].
+  assert (Hfo := fo_post _ (inv_frames c (io_inv _ HIO) t f Tt) Hpl).
+  destruct (f_call f) as [| |j k v p| | |] eqn:Hcall; try contradiction.
+  pose proof (pc_ok_post_label _ _ _ _ _ ltac:(rewrite <- Hcall; apply (io_pc _ HIO t f Tt)) Hpl) as Hpost.
+  assert (acquires (CLoadOrStore j k v p) RUnit = Some (k, true)) as ->.
+  { destruct Hpc as [E|E]; rewrite E in Hpost; destruct p; cbn in Hpost; try discriminate; reflexivity. }
+  cbn [key_of]. apply elem_of_app. right. left.
+Qed.
+
+(* RLockKey(k) waits while k is held exclusively *)
+Theorem rlock_waits_while_write_held progs sched t ch f t2 :
+  io_progs progs -> disc_from (init_config 1 progs) sched ->
+  let c := run_schedule (init_config 1 progs) sched in
+  top_frame c t = Some f -> f_pc f = KRW_RLock ->
+  holds_excl c t2 (key_of (f_call f)) -> step c t ch = None.
+Proof.
+  intros Hp Hd c Tt Hpc Hh.
+  pose proof (IOInv_reachable progs sched Hp) as HIO. fold c in HIO.
+  pose proof (MInv_reachable progs sched Hp Hd) as HM. fold c in HM.
+  assert (Hpl : is_post_label (f_pc f) = true) by (rewrite Hpc; reflexivity).
+  pose proof (post_step c t ch f HIO (disciplined_no_panic progs sched Hp Hd) Tt Hpl) as Hps.
+  destruct (MInv_excl c t2 _ HM Hh) as [_ (i & m & Hi & Hkm & Hlocked)].
+  pose proof (post_frame_mutex c i t f HIO Hi Tt Hpl) as Hkm'. assert (m = (f_los f).1) by congruence. subst m.
+  destruct (step_post (c_um c) f) as [r|] eqn:Hsp; [|exact Hps]. exfalso.
+  assert (Hen : step_post (c_um c) f <> None) by congruence.
+  apply (rlock_enabled_iff_no_writer (c_um c) f Hpc) in Hen. unfold mstate_of, mutex_of in Hen. rewrite Hlocked in Hen. discriminate.
+Qed.
+
+(* RLockKey(k) is enabled, completes and then holds k shared, when nobody holds k exclusively - readers
+   do not exclude each other, and other keys do not matter *)
+Theorem rlock_succeeds_when_key_not_write_held progs sched t ch f :
+  io_progs progs -> fresh_values progs -> disc_from (init_config 1 progs) sched ->
+  let c := run_schedule (init_config 1 progs) sched in
+  top_frame c t = Some f -> f_pc f = KRW_RLock ->
+  (forall t2, ~ holds_excl c t2 (key_of (f_call f))) ->
+  exists c', step c t ch = Some c' /\ completed (c_hist c') = completed (c_hist c) ++ [(t, f_call f, RUnit)] /\
+             holds_shared c' t (key_of (f_call f)).
+Proof.
+  intros Hp Hfr Hd c Tt Hpc Hfree.
+  pose proof (IOInv_reachable progs sched Hp) as HIO. fold c in HIO.
+  destruct (MInv_reachable progs sched Hp Hd) as (i & Hi & Hk & Hm). fold c in Hi, Hk, Hm.
+  assert (Hpl : is_post_label (f_pc f) = true) by (rewrite Hpc; reflexivity).
+  pose proof (post_step c t ch f HIO (disciplined_no_panic progs sched Hp Hd) Tt Hpl) as Hps.
+  pose proof (post_frame_mutex c i t f HIO Hi Tt Hpl) as Hkm.
+  assert (Hf : free_for_reader (mstate_of (c_um c) f) = true).
+  { specialize (Hm (f_los f).1). unfold mstate_of, mutex_of.
+    destruct (default UFree (c_um c !! (f_los f).1)) as [| |n]; cbn in Hm |- *; try reflexivity.
+    destruct Hm as (t0 & k0 & Hm). exfalso.
+    assert (Hin : (t0, k0, true) ∈ base.filter (on_km (kmut (i_st i)) (f_los f).1) (holders c)) by (rewrite Hm; left).
+    apply elem_of_list_filter in Hin as [H1 H2]. unfold on_km in H1. cbn in H1.
+    assert (k0 = key_of (f_call f)) by (eapply (kmut_injective progs sched i); eauto). subst k0. exact (Hfree t0 H2). }
+  assert (Hsp : exists um', step_post (c_um c) f = Some (Ok (um', Return RUnit))).
+  { unfold step_post. rewrite Hpc. unfold mstate_of, mutex_of in Hf.
+    destruct (default UFree (c_um c !! (f_los f).1)); try discriminate Hf; eauto. }
+  destruct Hsp as [um' Hsp]. rewrite Hsp in Hps. destruct Hps as (c' & r' & Hstep & [= <-] & _ & _ & Hc).
+  exists c'. split; [exact Hstep|]. split; [exact Hc|].
+  unfold holds_shared. rewrite (holders_snoc _ _ _ Hc). unfold hold_step. cbn [fst snd].
+  assert (Hfo := fo_post _ (inv_frames c (io_inv _ HIO) t f Tt) Hpl).
+  destruct (f_call f) as [| |j k v p| | |] eqn:Hcall; try contradiction.
+  pose proof (pc_ok_post_label _ _ _ _ _ ltac:(rewrite <- Hcall; apply (io_pc _ HIO t f Tt)) Hpl) as Hpost.
+  assert (acquires (CLoadOrStore j k v p) RUnit = Some (k, false)) as ->.
+  { rewrite Hpc in Hpost; destruct p; cbn in Hpost; try discriminate; reflexivity. }
+  cbn [key_of]. apply elem_of_app. right. left.
+Qed.
